@@ -42,7 +42,7 @@ func canaryRows(prop string) []canaryRow {
 			continue
 		}
 		hit := false
-		for _, p := range strings.Fields(r.Properties) {
+		for _, p := range strings.FieldsFunc(r.Properties, func(c rune) bool { return c == ' ' || c == ',' }) {
 			if p == prop {
 				hit = true
 			}
